@@ -902,4 +902,95 @@ theorem segLoad_inside (c : Cls) (enc : Enc) (ls : LoadSt) (k : Nat) (isLazy : B
     rw [hg] at h1 h2
     simp_all
 
+/-- segment `idx` (record at `k`) as the loader leaves it, given the loaded sections -/
+def segFinal (c : Cls) (enc : Enc) (img : Bytes) (k : Nat) (isLazy : Bool) (idx : Nat) (secs : List SecBuf) : Seg :=
+  { segHdr c enc img k isLazy with
+      index := idx,
+      secs := (secs.filter (memberOf (segHdr c enc img k isLazy))).map (fun b => BitVec.ofNat 16 b.index),
+      data := if isLazy then none else segData img (segHdr c enc img k isLazy),
+      isLoaded := !isLazy && !segSkip (segHdr c enc img k isLazy) }
+
+theorem memberOf_data (g : Seg) (d : Option Bytes) (l : Bool) :
+    memberOf { g with data := d, isLoaded := l } = memberOf g := by
+  funext b; rfl
+
+/-- **the segment loop on an image that contains every record and every non-empty file range** :
+    no segment fails, the stream stays good -/
+theorem loadSegmentsLoop_inside (c : Cls) (enc : Enc) (isLazy : Bool) (phoff entsize : Nat) (img : Bytes)
+    (h63 : img.length < 9223372036854775808) (secs : List SecBuf) :
+    ∀ (n i : Nat) (ls : LoadSt) (acc : List Seg),
+      ls.st.data = img → ls.st.eof = false → ls.st.fail = false →
+      (∀ j, i ≤ j → j < i + n → phoff + j * entsize + phdrSize c ≤ img.length ∧
+        SegInside img.length (segHdr c enc img (phoff + j * entsize) isLazy)) →
+      let r := loadSegmentsLoop c enc [] isLazy (Int.ofNat phoff) entsize secs n i ls acc
+      r.1.st.data = img ∧ r.1.st.eof = false ∧ r.1.st.fail = false ∧ r.1.st.kind = ls.st.kind ∧
+      r.2.2 = true ∧
+      ∃ l : List Seg, r.2.1 = acc.reverse ++ l ∧ l.length = n ∧
+        ∀ j (h : j < l.length), l[j] = segFinal c enc img (phoff + (i + j) * entsize) isLazy (i + j) secs := by
+  intro n
+  induction n with
+  | zero =>
+    intro i ls acc hd he hf _
+    exact ⟨hd, he, hf, rfl, rfl, [], by simp [loadSegmentsLoop], rfl, fun j h => absurd h (by simp)⟩
+  | succ n ih =>
+    intro i ls acc hd he hf hall
+    have hi := hall i (Nat.le_refl _) (by omega)
+    subst hd
+    have h1 := segLoad_inside c enc ls (phoff + i * entsize) isLazy he hf h63 hi.1 hi.2
+    simp only [loadSegmentsLoop, ofNat_add_mul]
+    generalize segLoad c enc [] ls (Int.ofNat (phoff + i * entsize)) isLazy = x at h1
+    obtain ⟨ls', g', ok⟩ := x
+    obtain ⟨hs, he', hf', hd', hk'⟩ := h1
+    simp only [Prod.mk.injEq] at hs
+    obtain ⟨hg, hok⟩ := hs
+    simp only at he' hf' hd' hk'
+    subst hok
+    simp only [hf', Bool.not_true, Bool.or_self, Bool.false_eq_true, if_false]
+    have h2 := ih (i + 1) ls'
+      ({ g' with index := i, secs := (secs.filter (memberOf g')).map (fun b => BitVec.ofNat 16 b.index) } :: acc)
+      hd' he' hf' (fun j h1 h2 => hall j (by omega) (by omega))
+    obtain ⟨g1, g2, g3, g4, g5, l, g6, g7, g8⟩ := h2
+    refine ⟨g1, g2, g3, by rw [g4, hk'], g5,
+      { g' with index := i, secs := (secs.filter (memberOf g')).map (fun b => BitVec.ofNat 16 b.index) } :: l,
+      ?_, by simp [g7], ?_⟩
+    · rw [g6]; simp
+    · intro j h
+      cases j with
+      | zero =>
+        simp only [List.getElem_cons_zero, Nat.add_zero]
+        rw [hg, memberOf_data]
+        rfl
+      | succ j =>
+        have := g8 j (by simpa using h)
+        simpa [Nat.add_assoc, Nat.add_comm 1 j] using this
+
+/-- `get_data()` on a segment in its final state, on any stream over the image -/
+theorem segGetData_segFinal (c : Cls) (enc : Enc) (img : Bytes) (k : Nat) (isLazy : Bool) (idx : Nat)
+    (secs : List SecBuf) (ls : LoadSt) (hd : ls.st.data = img) (h63 : img.length < 9223372036854775808)
+    (hin : SegInside img.length (segHdr c enc img k isLazy)) :
+    (segGetData c [] ls (segFinal c enc img k isLazy idx secs)).2.data = segData img (segHdr c enc img k isLazy) ∧
+    (segGetData c [] ls (segFinal c enc img k isLazy idx secs)).1.st.eof = ls.st.eof ∧
+    (segGetData c [] ls (segFinal c enc img k isLazy idx secs)).1.st.fail = ls.st.fail := by
+  subst hd
+  rw [segGetData_eq]
+  cases hs : segSkip (segHdr c enc ls.st.data k isLazy)
+  · cases isLazy
+    · simp [segFinal, hs, segData]
+    · simp only [segFinal, hs, Bool.not_true, Bool.false_and, Bool.not_false, if_true]
+      have h := segLoadData_inside c ls
+        { segHdr c enc ls.st.data k true with
+            index := idx,
+            secs := (secs.filter (memberOf (segHdr c enc ls.st.data k true))).map (fun b => BitVec.ofNat 16 b.index),
+            data := none, isLoaded := false }
+        (by simp [segHdr, segInit]) h63 hs (hin hs)
+      rw [h.1, h.2.1, h.2.2]
+      simp [segData, hs]
+  · have hs2 : segSkip (segFinal c enc ls.st.data k isLazy idx secs) = true := hs
+    have hdn : (segFinal c enc ls.st.data k isLazy idx secs).data = none := by
+      cases isLazy <;> simp [segFinal, segData, hs]
+    split
+    · rw [segLoadData_skip c [] ls _ hs2]
+      simp [segData, hs, hdn]
+    · simp [segData, hs, hdn]
+
 end ElfioVerif
